@@ -158,6 +158,40 @@ func c04Check(w *core.W, m *model.Msg, kind string) {
 			}
 		}
 	}
+	// history independence: packing other messages in between - one that fails part-way after
+	// writing names at other offsets, and one that succeeds - must not change what this one packs to
+	if kind == "small" || len(packC)%4 == 0 {
+		for _, failing := range []bool{true, false} {
+			other, _ := buildMsgAny(m)
+			other.Compress = true
+			other.Question = append([]dns.Question{{Name: "shift-the-offsets.invalid.", Qtype: 1, Qclass: 1}}, other.Question...)
+			if failing {
+				other.Extra = append(other.Extra, &dns.A{Hdr: dns.RR_Header{Name: "bad.shift-the-offsets.invalid.", Rrtype: 1, Class: 1}, A: []byte{1, 2, 3}})
+			}
+			var oerr error
+			if w.Guard("Msg.Pack(other)", wit, func() { _, oerr = other.Pack() }) {
+				return
+			}
+			if failing != (oerr != nil) {
+				w.Count("history_step_unexpected_verdict", 1)
+			}
+			again, _ := buildMsgAny(m)
+			again.Compress = true
+			var packA []byte
+			if w.Guard("Msg.Pack(compress, again)", wit, func() { packA, err = again.Pack() }) {
+				return
+			}
+			w.Count("history_checks", 1)
+			if err != nil || !bytes.Equal(packA, packC) {
+				what := "after-successful-pack"
+				if failing {
+					what = "after-failed-pack"
+				}
+				w.Violation("C04/pack-depends-on-history/"+what, fmt.Sprintf("packing the same message again after another Pack call (failing=%v, its error: %v) gives err=%v and %s", failing, oerr, err, diffWin(packA, packC)), wit)
+				break
+			}
+		}
+	}
 	if w.WantSample() {
 		w.Sample(map[string]any{"kind": kind, "uncompressed_len": len(packU), "compressed_len": len(packC), "pointers": len(ptrs), "compressed": hx(packC)})
 	}
@@ -204,9 +238,9 @@ func init() {
 	core.Register(&core.Monitor{
 		ID: "C04", Level: "exploration", Plan: plan, Run: run,
 		Rule: "messages drawn from small pools of suffix-sharing / case-variant / escaped names, 0..4 questions, every name-bearing type in every section, plus 300..1200-record messages crossing offset 16384; " +
-			"oracle = strict model decoder (expands names, logs every pointer with position/target/field) compared byte-exact with the uncompressed packing; model-compressed input with pointers in every type's RDATA; " +
+			"oracle = strict model decoder (expands names, logs every pointer with position/target/field) compared byte-exact with the uncompressed packing; model-compressed input with pointers in every type's RDATA; the same message packed again after a failing and after a succeeding Pack of a related message with shifted offsets must give identical octets; " +
 			"non-trivial = distinct message whose compressed form is shorter",
 		Assumptions: []string{"RFC 3597 s.4 set = NS MD MF CNAME SOA MB MG MR PTR MINFO MX"},
-		MinObserved: []string{"messages", "pointers", "messages_over_16384", "input_pointers_in_other_rdata"},
+		MinObserved: []string{"messages", "pointers", "messages_over_16384", "input_pointers_in_other_rdata", "history_checks"},
 	})
 }
